@@ -386,11 +386,15 @@ class AsyncInotifyWrapper:
                 # Handle it like the parent's report: as the removal of a directory,
                 # so the directory counts as a lost glob match (with its trailing separator)
                 # and everything recorded under it is reported as deleted.
-                if event.mask & Mask.MOVE_SELF and self.watches.get(path) is event.watch:
-                    # A watch follows the directory to its new location: let go of it.
-                    self.inotify.rm_watch(event.watch)
+                # A report from a watch that is no longer on record is stale:
+                # the parent has reported the removal already,
+                # and the directory may even be back under a new watch by now.
+                if self.watches.get(path) is event.watch:
+                    if event.mask & Mask.MOVE_SELF:
+                        # A watch follows the directory to its new location: let go of it.
+                        self.inotify.rm_watch(event.watch)
                     self.watches[path] = None
-                self.change_queue.put_nowait((Change.DELETED_PARENT, path))
+                    self.change_queue.put_nowait((Change.DELETED_PARENT, path))
                 continue
             # Determine the type of change
             change = (
